@@ -7,16 +7,22 @@ import HcModel.Drv.Util
 
   pairsetup run <fixed 0|1> <conn> <msg> ; <msg> ; …
      msg := m1 | m3 <A> <proof> | m5 <enc> | badmethod | badstate <n> | malformed
-     A := good <a> | bad <n>          proof := valid <conn> <a> <0|1> | garbage <n> | empty
+     A := good <a> | bad <n>          proof := valid <conn> <back> <a> <0|1> | garbage <n> | empty
      enc := short <n> | sealed <K> <nonceOk> <intact> <plain>
-     K := zero | ofs <S> | rand <n>    S := nil | srp <conn> <a>
+     K := zero | ofs <S> | rand <n>    S := nil | srp <conn> <back> <a>
+     <back>: SRP sessions are named RELATIVE to the one that is current on the connection when the message is processed
+     (0 = the session of the current exchange, k = k exchanges earlier; a value from before the first session never
+     matches); for another connection's session the number is ignored. `valid <conn> <back> <a> <0|1>` likewise.
      plain := malformed | tlv <name> <key> <sig>     key := pk <n> | badlen <n>
      sig := valid <signer> <S> <name> <key> | garbage <n> | empty
   pairverify run <fixed 0|1> <conn> <msg> ; …      (each v3 carries the store entry of the name it claims)
      msg := v1 good <e> | v1 wronglen <n> | v3 <enc> <entry> | badmethod | badstate <n> | malformed
-     enc := short <n> | sealed <K> <nonceOk> <intact> <plain>     K := zero | eph <conn> <e> | rand <n>
+     enc := short <n> | sealed <K> <nonceOk> <intact> <plain>     K := zero | eph <conn> <back> <e> | rand <n>
      plain := malformed | tlv <name> <sig>
-     sig := valid <signer> <ce | -> <name> <accConn> | garbage <n> | empty
+     sig := valid <signer> <ce | -> <name> <accConn> <back> | garbage <n> | empty
+     <back>: the accessory's ephemeral keys are named RELATIVE to the one current on the connection when the message is
+     processed (0 = the key of the latest start response, k = k start responses earlier); ignored for other connections.
+     The observation "session <e> <back>" names the installed secret the same way.
      entry := none | nokey | key <pk>
 -/
 namespace Hc.Drv.Pair
@@ -40,8 +46,9 @@ def pS : P SRef
   | "nil" :: r => some (.nil, r)
   | "srp" :: r => do
     let (c, r) ← pNat r
+    let (e, r) ← pNat r
     let (a, r) ← pNat r
-    pure (.srp c a, r)
+    pure (.srp c e a, r)
   | _ => none
 
 def pK : P KRef
@@ -58,9 +65,10 @@ def pA : P ARef
 def pProof : P Proof
   | "valid" :: r => do
     let (c, r) ← pNat r
+    let (e, r) ← pNat r
     let (a, r) ← pNat r
     let (ok, r) ← pBool r
-    pure (.validFor c a ok, r)
+    pure (.validFor c e a ok, r)
   | "garbage" :: r => do let (n, r) ← pNat r; pure (.garbage n, r)
   | "empty" :: r => some (.empty, r)
   | _ => none
@@ -137,8 +145,9 @@ def pK : P KRef
   | "zero" :: r => some (.zero, r)
   | "eph" :: r => do
     let (c, r) ← pNat r
+    let (k, r) ← pNat r
     let (e, r) ← pNat r
-    pure (.ofEph c e, r)
+    pure (.ofEph c k e, r)
   | "rand" :: r => do let (n, r) ← pNat r; pure (.rand n, r)
   | _ => none
 
@@ -153,7 +162,8 @@ def pSig : P SigRef
     let (ce, r) ← pOptNat r
     let (n, r) ← pNat r
     let (ac, r) ← pNat r
-    pure (.valid sg ce n ac, r)
+    let (ae, r) ← pNat r
+    pure (.valid sg ce n ac ae, r)
   | "garbage" :: r => do let (n, r) ← pNat r; pure (.garbage n, r)
   | "empty" :: r => some (.empty, r)
   | _ => none
@@ -199,17 +209,30 @@ def pIn : P (Store × In)
   | "malformed" :: r => some ((fun _ => .none, .malformedTlv), r)
   | _ => none
 
-def showInst : Option (Option Nat) → String
+def showInst (st : St) : String :=
+  match st.installed with
   | none => "plain"
   | some none => "session zero"
-  | some (some e) => s!"session {e}"
+  | some (some e) => s!"session {e} {st.epoch - st.instEpoch}"
 
 def showOut (o : Out) (st : St) : String :=
   let os := match o with
     | .http500 => "500"
     | .tlv s e k en => s!"tlv {s} {match e with | some x => toString x | none => "-"} {S.b k} {S.b en}"
     | .panic => "panic"
-  os ++ " " ++ showInst st.installed
+  os ++ " " ++ showInst st
+
+/-- relative number of an accessory key → absolute, on connection `c` in state `st` (keys 1..st.epoch exist) -/
+def absEpoch (c : Nat) (st : St) (c' back : Nat) : Nat :=
+  if c' = c then (if back < st.epoch then st.epoch - back else st.epoch + 1 + back) else 0
+def resolve (c : Nat) (st : St) : In → In
+  | .v3 (.sealed k no it pt) =>
+    let k' := match k with | .ofEph c' b e => KRef.ofEph c' (absEpoch c st c' b) e | k => k
+    let pt' := match pt with
+      | .tlv n (.valid sg ce n' ac b) => Plain.tlv n (.valid sg ce n' ac (absEpoch c st ac b))
+      | pt => pt
+    .v3 (.sealed k' no it pt')
+  | i => i
 
 end V
 
@@ -218,15 +241,36 @@ def splitMsgs (toks : List String) : List (List String) :=
     | [] => [[t]]
     | cur :: rest => if t == ";" then [] :: cur :: rest else (t :: cur) :: rest) [[]]).filter (· ≠ [])
 
+namespace S
+open Hc.PairSetup
+/-- relative session number → absolute, on connection `c` in state `st` -/
+def absEpoch (c : Nat) (st : St) (c' back : Nat) : Nat :=
+  if c' = c then (if back ≤ st.epoch then st.epoch - back else st.epoch + 1 + back) else 0
+def resS (c : Nat) (st : St) : SRef → SRef
+  | .srp c' k a => .srp c' (absEpoch c st c' k) a
+  | s => s
+def resolve (c : Nat) (st : St) : In → In
+  | .m3 A (.validFor c' k a ok) => .m3 A (.validFor c' (absEpoch c st c' k) a ok)
+  | .m5 (.sealed k no it pt) =>
+    let k' := match k with | .ofS s => KRef.ofS (resS c st s) | k => k
+    let pt' := match pt with
+      | .tlv n key (.valid sg s n' k'') => Plain.tlv n key (.valid sg (resS c st s) n' k'')
+      | pt => pt
+    .m5 (.sealed k' no it pt')
+  | i => i
+end S
+
 def runSetup (fixed : Bool) (c : Nat) (msgs : List (List String)) : Option String := do
   let ins ← optAll (msgs.map fun m => match S.pIn m with | some (i, []) => some i | _ => none)
-  let (st, obs) := Hc.PairSetup.run fixed c Hc.PairSetup.init ins
+  let (st, obs) := ins.foldl (fun (acc : Hc.PairSetup.St × List (Hc.PairSetup.Out × Hc.PairSetup.Save)) i =>
+    let r := Hc.PairSetup.step fixed c acc.1 (S.resolve c acc.1 i)
+    (r.1, acc.2 ++ [r.2])) (Hc.PairSetup.init, [])
   pure (" ; ".intercalate (obs.map S.showOut) ++ " | " ++ S.showStep st.step)
 
 def runVerify (fixed : Bool) (c : Nat) (msgs : List (List String)) : Option String := do
   let ins ← optAll (msgs.map fun m => match V.pIn m with | some (i, []) => some i | _ => none)
   let (_, outs) := ins.foldl (fun (acc : Hc.PairVerify.St × List String) x =>
-    let (st', o) := Hc.PairVerify.step fixed c x.1 acc.1 x.2
+    let (st', o) := Hc.PairVerify.step fixed c x.1 acc.1 (V.resolve c acc.1 x.2)
     (st', acc.2 ++ [V.showOut o st'])) (Hc.PairVerify.init, [])
   pure (" ; ".intercalate outs)
 
